@@ -5,7 +5,7 @@
    Implementation.clear_ / new_ / run_ / chain_ and of everything they call; a reset call dropped from
    the code drops out of the table and the theorems below stop being provable. *)
 From Coq Require Import ZArith List Bool String.
-From PCB Require Import lib.Result lib.PyInt lib.ClearTable gen.Gen_clear model.ClearChain proofs.ClearChain_proofs.
+From PCB Require Import lib.Result lib.PyInt lib.ClearTable gen.Gen_clear model.ClearChain proofs.ClearChain_reset proofs.ClearChain_closed proofs.ClearChain_proofs.
 Import ListNotations.
 Open Scope Z_scope.
 
